@@ -6,6 +6,7 @@ import itertools
 import re
 
 from ..common import ERR, FAIL, PASS, run_rule
+from ..e2 import generic_canon
 from ..engine import Result
 from ..impl import build, mk_layer_rule, mk_layered_architecture, plan_graph_shards, shard_graphs
 from ..refmodel import Unparsable, layer_expectation, layer_of, parse_layer_message
@@ -41,7 +42,7 @@ def plan(tier, seed):
         for naming in ("identity", "adversarial"):
             out.append(dict(s, naming=naming, bound=s["bound"] + f" naming={naming}"))
     req = [f"{v}/{e}/{o}" for v in ("should", "should_only", "should_not") for e in (False, True) for o in (PASS, FAIL)]
-    return {"shards": out, "require_nonzero": req + ["anything/PASS", "anything/FAIL", "style:names", "style:regex", "style:mixed"]}
+    return {"shards": out, "require_nonzero": req + ["anything/PASS", "anything/FAIL", "style:names", "style:regex", "style:mixed", "re-applied"]}
 
 
 def set_partitions(xs):
@@ -98,7 +99,7 @@ def layer_rule_specs(layers):
     out = []
     for sl in names:
         others = [n for n in names if n != sl]
-        objsets = [c for k in (1, 2) for c in itertools.combinations(others, k)]
+        objsets = [c for k in (1, 2) for c in itertools.permutations(others, k)]  # both listing orders
         for obj in objsets:
             for verb, imp, exc in SHAPES:
                 out.append(dict(verb=verb, imp=imp, exc=exc, subj=sl, obj=list(obj)))
@@ -107,9 +108,30 @@ def layer_rule_specs(layers):
     return out
 
 
-def judge(ns, I, layers, style, spec, ev, seed, res):
-    la = mk_layered_architecture(layer_defs(layers, style), seed)
-    got = run_rule(mk_layer_rule(la, spec, seed), ev)
+def decoys(ns, I, layers, spec):
+    """Architectures that lack one module (with its sub-tree) of a layer the rule mentions: the
+    rule object is applied to one of them first, so a layer regex matches a different set there."""
+    mentioned = [spec["subj"]] + list(spec.get("obj") or [])
+    out = []
+    for l in mentioned:
+        for m in layers[l]:
+            keep = [n for n in ns if n != m and not n.startswith(m + ".")]
+            out.append((keep, [(u, v) for u, v in I if u in keep and v in keep]))
+    return out
+
+
+def judge(ns, I, layers, style, spec, ev, seed, res, la=None, decoy=None):
+    """la: LayeredArchitecture object shared with other rules (None = a fresh one);
+    decoy: (ns, I) of another architecture the same rule object is applied to first."""
+    if la is None:
+        la = mk_layered_architecture(layer_defs(layers, style), seed)
+    rule = mk_layer_rule(la, spec, seed)
+    if decoy is not None:
+        run_rule(rule, build(decoy[0], decoy[1], seed))
+        if res is not None:
+            res.transitions += 1
+            res.stats["re-applied"] += 1
+    got = run_rule(rule, ev)
     real, miss = layer_expectation(ns, set(I), layers, spec)
     exp = PASS if not real and not miss else FAIL
     shape = "anything" if spec.get("anything") else f"{spec['verb']}/{spec['exc']}"
@@ -170,12 +192,30 @@ def run_shard(shard, tier, seed):
         res.states += 1
         for layers, specs in _layerings(ns):
             for style in STYLES:
+                # one LayeredArchitecture object per definition, shared by all rules (as in a test module)
+                la = mk_layered_architecture(layer_defs(layers, style), seed)
+                la0, dirty = generic_canon(la), False
                 for spec in specs:
                     res.transitions += 1
                     res.evaluations += 1
-                    v = judge(ns, I, layers, style, spec, ev, seed, res)
+                    if dirty:
+                        # the previous rule changed the shared definition: it was used once more in that
+                        # state (one follow-up rule), now start again from a fresh definition
+                        la, dirty = mk_layered_architecture(layer_defs(layers, style), seed), False
+                    v = judge(ns, I, layers, style, spec, ev, seed, res, la=la)
+                    if generic_canon(la) != la0:
+                        dirty = True
+                        res.stats["shared-definition-changed-by-a-rule"] += 1
                     if v:
                         res.violation(v[0], {"modules": ns, "imports": I, "layers": layers, "style": style, "rule": spec, "seed": seed}, v[1], v[2])
+                    if style in ("regex", "mixed"):
+                        for d in decoys(ns, I, layers, spec):
+                            res.transitions += 1
+                            res.evaluations += 1
+                            v = judge(ns, I, layers, style, spec, ev, seed, res, la=la, decoy=d)
+                            if v:
+                                res.violation(v[0] + "-after-re-application", {"modules": ns, "imports": I, "layers": layers, "style": style, "rule": spec, "seed": seed,
+                                                                              "decoy": {"modules": d[0], "imports": d[1]}}, v[1], v[2])
             if len(res.samples) < 1 and I:
                 res.sample({"modules": ns, "imports": I, "layers": layers, "style": "regex", "rule": specs[0]})
     return res
@@ -184,7 +224,12 @@ def run_shard(shard, tier, seed):
 def _check_case(case):
     ns, I = case["modules"], [tuple(e) for e in case["imports"]]
     ev = build(ns, I, case.get("seed", 0))
-    return judge(ns, I, case["layers"], case["style"], case["rule"], ev, case.get("seed", 0), None)
+    d = case.get("decoy")
+    v = judge(ns, I, case["layers"], case["style"], case["rule"], ev, case.get("seed", 0), None,
+              decoy=(d["modules"], [tuple(e) for e in d["imports"]]) if d else None)
+    if v and d:
+        v = (v[0] + "-after-re-application",) + tuple(v[1:])
+    return v
 
 
 def minimise(v):
